@@ -279,6 +279,18 @@ def reseg(sc, how):
     return sc2
 
 
+def with_second_connection(sc, at=('text', 'ping', 'binary', 'pong', 'ready', 'poll')):
+    """Variant: while the handler of an event of this connection runs, a second live connection of the same process reads from its
+    own socket (call `other_recv`): per-connection state (receive buffer, parser, validator ...) must not be shared."""
+    import copy
+    sc2 = copy.deepcopy(sc)
+    react = sc2.setdefault('react', {})
+    for name in at:
+        for k in range(3):
+            react.setdefault('%s#%d' % (name, k), []).insert(0, ["other_recv", 64])
+    return sc2
+
+
 def zero_timeouts(sc):
     """Variant: disabled time-outs spelled 0 / 0.0 instead of None (the documentation names both spellings)."""
     import copy
